@@ -263,8 +263,8 @@ def normal_form_check(ctx, prop, where, m, origin=None):
     if d is not None:
         violation(prop, where, "result is not in normal form: " + d,
                   {"result": repr(m), "origin": origin, "defect": d, "stratum": getattr(ctx, "stratum", "main"),
-                   "group": d.split(" with ")[0][:40]},
-                  live={"result": m})
+                   "group": d.split(" with ")[0][:40], "simplify_diagnostics": dict(getattr(ctx, "diag", {}))},
+                  live={"result": m, "diag": dict(getattr(ctx, "diag", {}))})
     return d
 
 
